@@ -131,6 +131,14 @@ def tex_applies(sfx, kind, data):
         if (oi and iv > 10 ** 6) or (not oi and pi > 0 and t[:pi].lstrip(b"+-").isdigit()): return False
     return True
 
+def safe_model(ck, lines, timeout=900):
+    """the extracted model with a time limit: a slow or failing model is a reported problem of the tie, not a hang"""
+    try:
+        return core.run_model(lines, timeout=timeout)
+    except RuntimeError as e:
+        ck.violation("model driver: %s" % str(e)[:60], "the extracted model did not answer: %s" % str(e)[:300], dict(kind="model", error=str(e)[:2000], cases=lines[:3]), found_input=False)
+        return ["99"] * len(lines)
+
 def model_load_line(order, sfx, kind, data):
     if tex_applies(sfx, kind, data):
         return "c07 5 %s" % " ".join(map(str, lex.tex_view(data)[0]))
@@ -214,7 +222,7 @@ def run_rt(ck, hb, order, cases, stats):
     for (fmt, o, tk), (st, data, oc) in zip(cases, impl):
         mlines.append("c07 %d %s" % ({0: 1, 1: 2, 2: 6}[fmt], " ".join(map(str, mobj(o)))))
         mlines.append(model_load_line(order, fmt, tk, data if data is not None else b""))
-    mo = core.run_model(mlines)
+    mo = safe_model(ck, mlines, timeout=1200)
     words = [v for (fmt, o, tk) in cases if fmt in (1, 2) for v in obj_values(o)]
     rnd = rnd6_batch(hb, ck.workdir, words)
     for n, ((fmt, o, tk), (st, data, oc)) in enumerate(zip(cases, impl)):
@@ -325,7 +333,7 @@ def run_csc(ck, hb, rng, n, stats):
     cases += [[3, 2, 3, 2, 0, 1, w(0.0), 1, 2, w(-0.0)], [3, 1, 1, 1, 0, 0, w(-0.0)], [3, 3, 3, 0], [3, 4, 2, 3, 0, 1, w(1.5), 3, 0, w(2.5), 3, 1, w(0.0)]]
     lines = ["c07 9 %s" % " ".join(map(str, o)) for o in cases]
     rc, io, err = core.run_harness(hb, lines, ck.workdir, tag="csc")
-    mo = core.run_model(["c07 7 %s" % " ".join(map(str, mobj(o))) for o in cases])
+    mo = safe_model(ck, ["c07 7 %s" % " ".join(map(str, mobj(o))) for o in cases])
     for o, line, il, ml in zip(cases, lines, io, mo):
         out = ints(il); m = ints(ml)
         stats["dist"]["csc/Sparse"] = stats["dist"].get("csc/Sparse", 0) + 1
